@@ -40,6 +40,13 @@ class P(ServeProp):
                                   "/../secret5.txt#b", "/a.txt/../../secret5.txt", "/../root/../secret5.txt", "/../../outer/secret5.txt"])
             else:
                 tgt = None
+            # separators spelled as escapes, in both letter cases and doubly encoded (a decoder applied after the containment test turns them
+            # into real separators); chosen from the case number, without drawing, so that the streams of earlier runs stay
+            if tgt is not None and i % 3 == 0:
+                if "%2f" in tgt:
+                    tgt = tgt.replace("%2f", ("%2F", "%5C", "%252F")[i // 3 % 3])
+                elif "/../" in tgt:
+                    tgt = tgt.replace("/../", ("/..%2F", "/..%2f", "/%2E%2E%2F", "/..%5C", "/..%252F")[i // 3 % 5], 1 + i % 2)
             hs = None
             if rnd.random() < 0.25:
                 hs = ["Range: " + rnd.choice(gs.RANGES)]
